@@ -86,9 +86,8 @@ func runMux(seed uint64, n int, out string, rc *Case) {
 		if err != nil {
 			viol(fmt.Sprintf("mux CheckTx probe: %v", err), cs)
 		} else if g1-g0 > 100 {
-			sum.Findings = append(sum.Findings, coqout.Finding{Key: "C16:checktx-executorcommit-unbounded-runtime-notifiers",
-				What:   fmt.Sprintf("unbounded resources through CheckTx: %d signed roothash.ExecutorCommit transactions naming distinct unregistered runtimes (accepted by CheckTx: %d) left %d new goroutines that are never released (apps/roothash/transactions.go:49-55 -> roothash.go getRuntimeNotifiers)", 100, acc, g1-g0),
-				Replay: map[string]any{"case": cs}})
+			// regression case of the fixed finding C16:checktx-executorcommit-unbounded-runtime-notifiers
+			viol(fmt.Sprintf("unbounded resources through CheckTx: %d signed roothash.ExecutorCommit transactions naming distinct unregistered runtimes (accepted by CheckTx: %d) left %d new goroutines that are never released (apps/roothash/transactions.go:49-55 -> roothash.go getRuntimeNotifiers)", 100, acc, g1-g0), cs)
 		}
 	}
 	if rc != nil {
